@@ -20,7 +20,7 @@ from .. import core, gen, impl, probes
 from . import common
 
 HELPERS = [("kv", ["V"], "V"), ("gl", ["V"], "L"), ("hn", ["N"], "N"), ("gv", ["N"], "V")]
-SHAPES = ["1", "'s'", "null", "@.a", "$.x[0]", "@", "@.*", "@..a", "@[0,1]", "$[*]", "kv(@.a)", "gl(@.a)", "hn(@.*)", "gv(@.*)",
+SHAPES = ["1", "'s'", "null", "@.a", "$.x[0]", "@", "@.*", "@..a", "@[0,1]", "$[*]", "@[0:1]", "@[1:2]", "@[0:1:1]", "$[2:3]", "@.a[0:1].b", "@[:1]", "@[-1:]", "kv(@.a)", "gl(@.a)", "hn(@.*)", "gv(@.*)",
           "length(@)", "count(@.*)", "match(@.a, 'b')", "@.a == 1", "1 == 1", "@.a && @.b", "@.a || gl(@)", "!@.a", "!gl(@.a)",
           "(@.a)", "(@.a == 1)", "!(@.a)", "@[?@.a]", "@.a == kv(@.b)", "gl(@.a) && hn(@.*)", "kv(@.a) == 1 || @.b", "zz(@.a)"]
 POSITIONS = ["$[?{c}]", "$[?{c} == 1]", "$[?1 == {c}]", "$[?{c} != @.a]", "$[?kv({c}) == 1]", "$[?gl({c})]", "$[?count({c}) == 1]",
